@@ -37,6 +37,7 @@ def native_namespace(task):
     except ImportError:
         pass
     ns['M'] = M
+    ns['py_ballisticcalc'] = py_ballisticcalc
     return ns
 
 
@@ -86,14 +87,33 @@ def requires_ok(task, args, ns):
     return True
 
 
-def native_run(task, args, ns):
+class NativeTimeout(Exception):
+    pass
+
+
+def _alarm(signum, frame):
+    raise NativeTimeout()
+
+
+def native_run(task, args, ns, seconds=5):
+    """call the real function; a run longer than `seconds` is abandoned (NativeTimeout propagates to the caller,
+    which skips the witness)"""
+    import signal
     f = native_callable(task, ns)
-    with warnings.catch_warnings():
-        warnings.simplefilter('ignore')
-        try:
-            return 'return', f(*[args[n] for n in call_names(task)])
-        except Exception as e:  # noqa
-            return 'raise', e
+    old = signal.signal(signal.SIGALRM, _alarm)
+    signal.alarm(seconds)
+    try:
+        with warnings.catch_warnings():
+            warnings.simplefilter('ignore')
+            try:
+                return 'return', f(*[args[n] for n in call_names(task)])
+            except NativeTimeout:
+                raise
+            except Exception as e:  # noqa
+                return 'raise', e
+    finally:
+        signal.alarm(0)
+        signal.signal(signal.SIGALRM, old)
 
 
 def find_witnesses(task, seed, want=3, tries=400):
@@ -212,7 +232,13 @@ def cross_check(task_factory, seed, want=3):
             old_args = copy.deepcopy(args)
         except Exception:  # noqa
             old_args = args
-        kind, val = native_run(task, args, ns)
+        try:
+            kind, val = native_run(task, args, ns)
+        except NativeTimeout:
+            continue
+        if getattr(task.c, 'heavy', False):
+            res['checked'] += 0
+            continue      # heavy loops: the engine is not run as an interpreter (too slow); witnesses only
         try:
             ekind, eval_, etask = engine_run_concrete(task_factory, ev)
         except EngineError as e:
@@ -320,6 +346,8 @@ def native_search(task, kind, clause_src, seed, tries=600):
         try:
             if native_clause_violated(task, ns, args, kind, clause_src):
                 return srcs
+        except NativeTimeout:
+            continue
         except Exception:  # noqa
             continue
     return None
